@@ -286,7 +286,7 @@ def mode_history(args):
                     o = FileProcessTensor(mode="write" if op == "W" else "overwrite", filename=F, hilbert_space_dimension=2, dt=0.1,
                                           name=str(tag))
                     o.set_mpo_tensor(0, np.full((1, 1, 4), float(tag), dtype=complex))
-                    cur = {"obj": o, "name": F, "entitled": op == "O", "open": True}
+                    cur = {"obj": o, "name": F, "entitled": op == "O", "open": True, "writer": True}
                     live.append(cur)
                 elif op == "T":
                     o = FileProcessTensor(mode="write", filename=None, hilbert_space_dimension=2, dt=0.1)
@@ -304,8 +304,25 @@ def mode_history(args):
                 elif op == "X":
                     if cur is None:
                         continue
-                    cur["open"] = False
-                    cur["obj"].remove()
+                    was_open = cur["open"]
+                    try:
+                        cur["obj"].remove()
+                        cur["open"] = False
+                    except BaseException:
+                        # a refused remove() must not have any effect: an unfinished file stays marked as being written
+                        if was_open and cur.get("writer") and not cur["entitled"]:
+                            try:
+                                still = bool(cur["obj"]._f.attrs["writing"])
+                            except Exception:  # noqa  (file object closed by the refused call)
+                                still = False
+                            if not still:
+                                vio.append(("mode|remove-not-entitled|refusal-marks-the-unfinished-file-complete",
+                                            f"history {hist} pre_exists={pre_exists}: the refused remove() closed the file and "
+                                            f"cleared its 'writing' flag although the writer never called close()"))
+                            cur["open"] = still
+                        else:
+                            cur["open"] = False
+                        raise
                 elif op in ("E0", "E1"):
                     tag = new_tag()
                     tagged_simple(tag).export(F, overwrite=(op == "E1"))
